@@ -79,12 +79,14 @@ that are not text; containers that grow and shrink by hundreds of elements; the 
 command names in checks that used upper case only; identity confused with address; objects
 swapped at run time (tracer); handler calls outliving the command that made them.
 
-Seventeen **behaviour-preserving** changes (refactorings, micro-optimisations,
+Sixteen **behaviour-preserving** changes (refactorings, micro-optimisations,
 data-structure swaps, renames and re-worded error texts in redis/proto, the server core,
-the executors, the example store, glob and auth; and a correct variant of the idle-timeout
-feature of seed M04-2) are kept under `seeded/benign/`; every quick check is run against
-each of them (`tools/benign.sh`): see section 8 for the one false alarm this exposed
-(a timing budget in C19) and its correction.
+the executors, the example store, glob and auth) are kept under `seeded/benign/`; every
+quick check is run against each of them (`tools/benign.sh`, last done on the final checks:
+320 runs, no alarm): see section 8 for the one false alarm this exposed earlier (a timing
+budget in C19) and its correction. `seeded/variants/B5-1` is a *correct* variant of seed
+M04-2 (the connection is given up after a timed-out reply write) that C04 must not - and does
+not - flag; C11 flags it in its "peer already gone" mode for the same reason as seed M11-2.
 
 --------------------------------------------------------------------------------------
 
